@@ -23,6 +23,7 @@ use selium::Client;
 use serde::{Deserialize, Serialize};
 use serde_json::Value;
 use std::fmt::Debug;
+use std::cell::RefCell;
 use std::rc::Rc;
 use std::time::Duration;
 
@@ -302,34 +303,42 @@ where
     if let Err(e) = &fin {
         rep.notes.push(format!("finish failed: {e}"));
     }
-    // subscribers read until they have everything or nothing arrives for 60 virtual seconds
-    for (si, sub) in subs.iter_mut().enumerate() {
-        let mut got: Vec<Item> = vec![];
-        let mut errors = 0;
-        loop {
-            if got.len() >= accepted.len() {
-                // look a little further for duplicates / foreign items
-                match tokio::time::timeout(Duration::from_millis(1500), ACTOR.scope(sub_group, sub.next())).await {
-                    Ok(Some(Ok(x))) => {
-                        got.push(x);
-                        continue;
-                    }
-                    _ => break,
-                }
-            }
-            match tokio::time::timeout(Duration::from_secs(60), ACTOR.scope(sub_group, sub.next())).await {
-                Ok(Some(Ok(x))) => got.push(x),
-                Ok(Some(Err(e))) => {
-                    errors += 1;
-                    rep.notes.push(format!("subscriber {si} error: {e}"));
-                    if errors > 3 {
-                        break;
+    // Each subscriber is read by its own task, which is polled only when the subscriber itself
+    // asks to be woken (a timeout around next() would re-poll it and mask a lost wake-up). The
+    // scenario waits until everything arrived, or 60 virtual seconds after finish() returned.
+    let mut readers = vec![];
+    for (si, mut sub) in subs.into_iter().enumerate() {
+        let got: Rc<RefCell<Vec<Item>>> = Rc::new(RefCell::new(vec![]));
+        let errs: Rc<RefCell<Vec<String>>> = Rc::new(RefCell::new(vec![]));
+        let (g2, e2) = (got.clone(), errs.clone());
+        let task = tokio::task::spawn_local(ACTOR.scope(sub_group, async move {
+            while let Some(item) = sub.next().await {
+                match item {
+                    Ok(x) => g2.borrow_mut().push(x),
+                    Err(e) => {
+                        e2.borrow_mut().push(format!("subscriber {si} error: {e}"));
+                        if e2.borrow().len() > 3 {
+                            break;
+                        }
                     }
                 }
-                Ok(None) => break,
-                Err(_) => break,
             }
+        }));
+        readers.push((got, errs, task));
+    }
+    let deadline = tokio::time::Instant::now() + Duration::from_secs(60);
+    loop {
+        if readers.iter().all(|(g, _, _)| g.borrow().len() >= accepted.len()) || tokio::time::Instant::now() >= deadline {
+            break;
         }
+        tokio::time::sleep(Duration::from_millis(100)).await;
+    }
+    // look a little further for duplicates / foreign items
+    tokio::time::sleep(Duration::from_millis(1500)).await;
+    for (si, (got, errs, task)) in readers.into_iter().enumerate() {
+        task.abort();
+        let got: Vec<Item> = got.borrow().clone();
+        rep.notes.extend(errs.borrow().iter().cloned());
         rep.received.push(got.len());
         if fin.is_ok() && got != accepted {
             let (tag, sig) = classify(&accepted, &got);
